@@ -7,20 +7,19 @@ Local Open Scope Z_scope.
 (* ------------------------------------------------------------------ coap_print_wellknown *)
 
 Theorem lf_wellknown_window rs filter off buflen :
-  lf_table_ok rs = true -> 0 <= off -> 0 <= buflen <= lf_status_max ->
+  0 <= off -> 0 <= buflen <= lf_status_max ->
   lf_print_wellknown rs filter off buflen =
   LfVal {| lf_rstatus := LfDone (len (lf_window off buflen (lf_listing (lf_selected filter rs))))
                                 (lf_trunc_spec off buflen (len (lf_listing (lf_selected filter rs))));
            lf_rbytes := lf_window off buflen (lf_listing (lf_selected filter rs));
            lf_rtotal := len (lf_listing (lf_selected filter rs)) |}.
 Proof.
-  intros Hok Ho Hb. unfold lf_print_wellknown, lf_print_wellknown_g.
+  intros Ho Hb. unfold lf_print_wellknown, lf_print_wellknown_g.
   destruct filter as [q|].
   - destruct (lf_split_filter_ok q) as (f & Hf & Hfok). rewrite Hf.
     destruct (lf_print_wellknown_window_gen true rs (Some f) (lf_filter_spec q) off buflen Ho Hb)
       as (w & Hw & Hret).
-    { intros r Hr. apply lf_select_ok; [exact Hfok|].
-      unfold lf_table_ok in Hok. rewrite forallb_forall in Hok. apply Hok. exact Hr. }
+    { intros r Hr. apply lf_select_ok. exact Hfok. }
     rewrite Hw. f_equal. exact Hret.
   - destruct (lf_print_wellknown_window_gen true rs None (fun _ => true) off buflen Ho Hb)
       as (w & Hw & Hret).
@@ -41,24 +40,23 @@ Proof. intros H. unfold lf_trunc_spec. replace (0 <? buflen) with true by lia. r
 
 (* C20_probe: an empty buffer reports the exact total, whatever the offset *)
 Theorem lf_wellknown_probe rs filter off :
-  lf_table_ok rs = true -> 0 <= off ->
+  0 <= off ->
   lf_print_wellknown rs filter off 0 =
   LfVal {| lf_rstatus := LfDone 0 (0 <? len (lf_listing (lf_selected filter rs)));
            lf_rbytes := [];
            lf_rtotal := len (lf_listing (lf_selected filter rs)) |}.
 Proof.
-  intros Hok Ho. rewrite lf_wellknown_window by (auto; unfold lf_status_max; lia).
+  intros Ho. rewrite lf_wellknown_window by (auto; unfold lf_status_max; lia).
   unfold lf_window. rewrite lf_take_0. reflexivity.
 Qed.
 
 (* ------------------------------------------------------------------ the GET handler *)
 
 Theorem lf_get_equals_listing rs query :
-  lf_table_ok rs = true ->
   len (lf_listing (lf_selected query rs)) <= lf_status_max ->
   lf_get_wellknown rs query = Lf205 (lf_listing (lf_selected query rs)).
 Proof.
-  intros Hok Hmax. unfold lf_get_wellknown.
+  intros Hmax. unfold lf_get_wellknown.
   rewrite lf_wellknown_probe by (auto; unfold lf_uint_max; lia).
   cbn [lf_rstatus lf_rtotal].
   set (L := lf_listing (lf_selected query rs)) in *.
@@ -186,10 +184,9 @@ Proof.
 Qed.
 
 Lemma lf_filter_spec_ok q r :
-  lf_res_ok r = true ->
   exists f, lf_split_filter true q = LfVal f /\ lf_select true f r = LfVal (lf_filter_spec q r).
 Proof.
-  intros Hr. destruct (lf_split_filter_ok q) as (f & Hf & Hok).
+  destruct (lf_split_filter_ok q) as (f & Hf & Hok).
   exists f. split; [exact Hf|]. apply lf_select_ok; assumption.
 Qed.
 
@@ -263,11 +260,11 @@ Qed.
 
 (* the whole GET path: the filter applied is the bytes of the request's Uri-Query options *)
 Theorem lf_handle_get_listing rs opts :
-  lf_table_ok rs = true -> Forall wfb opts ->
+  Forall wfb opts ->
   len (lf_listing (lf_selected (lf_raw_query opts) rs)) <= lf_status_max ->
   lf_handle_get rs opts = Lf205 (lf_listing (lf_selected (lf_raw_query opts) rs)).
 Proof.
-  intros Hok Hw Hm. unfold lf_handle_get. rewrite (lf_decoded_query opts Hw).
+  intros Hw Hm. unfold lf_handle_get. rewrite (lf_decoded_query opts Hw).
   apply lf_get_equals_listing; assumption.
 Qed.
 
